@@ -11,7 +11,7 @@ import posixpath
 from urllib.parse import urldefrag, urljoin, urlsplit
 
 KEYS = ["a", "b", "c"]
-ZOO = [None, True, False, 0, 1, 2, 1.0, 1.5, -3, 7, 10 ** 30, "", "ab", "abc", "Zz", "z", "x y", [], {}]
+ZOO = [None, True, False, 0, 1, 2, 1.0, 1.5, 2.5, 0.3, -3, 7, 10 ** 30, "", "ab", "abc", "Zz", "z", "x y", [], {}]
 SCALARS = [None, True, False, 0, 1, 2, 1.0, 1.5, -3, 7, "", "ab", "abc", "Zz"]
 PATTERNS = ["^a", "b$", "^.$", "z"]
 PP_PATTERNS = ["^a", "^[bc]$", "."]
@@ -95,6 +95,7 @@ def default_knobs(rng, **over):
         variant=0,
         triggers=rng.choice([False, False, True]),
         regex_boost=False,
+        decimal_floats=rng.random() < 0.1,
     )
     k.update(over)
     return k
@@ -203,6 +204,7 @@ class WorldGen(object):
             "draft": self.draft, "root_url": self.root_url, "root": root, "docs": docs,
             "store_docs": store_docs, "store_keys": store_keys, "custom": self.custom, "formats": self.formats,
             "homes": homes, "instances": instances, "reflog": self.reflog, "triggers": self.triggers,
+            "decimal_floats": bool(k.get("decimal_floats")),
         }
 
     def top_level(self, base):
@@ -497,6 +499,8 @@ class WorldGen(object):
             kinds += ["custom_type", "custom_type"]
         if self.k.get("regex_boost"):
             kinds += ["pattern"] * 5
+        if self.k.get("decimal_floats"):
+            kinds += ["minimum", "maximum", "multiple"] * 4       # Decimal instances meet float bounds and divisors
         if getattr(self, "triggers", None):
             # faults need workload: make the raising collaborators reachable
             if "format" in self.triggers:
@@ -512,11 +516,11 @@ class WorldGen(object):
             elif kind == "custom_type":
                 out["type"] = rng.choice(["even", "nonempty", ["even", "string"]])
             elif kind == "minimum":
-                out["minimum"] = rng.choice([0, 1, 2, 1.5])
+                out["minimum"] = rng.choice([0, 1, 2, 1.5] if not self.k.get("decimal_floats") else [0.5, 1.5, 2.5, 1])
                 if d in ("draft3", "draft4") and rng.random() < 0.3:
                     out["exclusiveMinimum"] = True
             elif kind == "maximum":
-                out["maximum"] = rng.choice([0, 1, 2, 1.5])
+                out["maximum"] = rng.choice([0, 1, 2, 1.5] if not self.k.get("decimal_floats") else [0.5, 1.5, 2.5, 1])
                 if d in ("draft3", "draft4") and rng.random() < 0.3:
                     out["exclusiveMaximum"] = True
             elif kind == "exclusive":
@@ -538,7 +542,7 @@ class WorldGen(object):
             elif kind == "uniqueItems":
                 out["uniqueItems"] = True
             elif kind == "multiple":
-                out["divisibleBy" if d == "draft3" else "multipleOf"] = rng.choice([2, 3, 0.5])
+                out["divisibleBy" if d == "draft3" else "multipleOf"] = rng.choice([2, 3, 0.5, 0.4, 1.1])
             elif kind == "required":
                 out["required"] = rng.sample(KEYS, rng.randint(1, 2))
             elif kind == "maxProperties":
@@ -638,7 +642,7 @@ class WorldGen(object):
         t = schema.get("type")
         if isinstance(t, list):
             t = rng.choice([x for x in t if isinstance(x, str)] or [None])
-        by_type = {"integer": [0, 1, 2, 7, -3, 1.0, 2.0], "number": [0, 1.5, 2, -3, 1.0], "string": ["", "ab", "abc", "z", "Zz"],
+        by_type = {"integer": [0, 1, 2, 7, -3, 1.0, 2.0], "number": [0, 1.5, 2, -3, 1.0, 2.5, 0.3], "string": ["", "ab", "abc", "z", "Zz"],
                    "boolean": [True, False], "null": [None], "array": [[], [1]], "object": [{}, {"a": 1}],
                    "even": [2, 3, 4], "nonempty": ["", "a", []]}
         if "enum" in schema and schema["enum"] and rng.random() < 0.5:
